@@ -361,8 +361,12 @@ func (e *exec) write(in *input, n int) {
 
 // reads is exact at a quiescent point; readsHi is an upper bound at any moment (the
 // producer's counter of completed sends may lag behind the channel by one).
-func (in *input) reads() int   { return int(in.wdone.Load()) - len(in.ch) }
-func (in *input) readsHi() int { return int(in.wstart.Load()) - len(in.ch) }
+func (in *input) reads() int { return int(in.wdone.Load()) - len(in.ch) }
+func (in *input) readsHi() int {
+	// length first: a producer that pushes between the two loads only raises the bound
+	l := len(in.ch)
+	return int(in.wstart.Load()) - l
+}
 
 // ---------------------------------------------------------------- deliveries
 
@@ -407,17 +411,20 @@ func (e *exec) recvAvailable(max int) int {
 	}
 	n := 0
 	for max < 0 || n < max {
+		// receive and record under one lock: the wrapping divider reads "deliveries recorded" and
+		// "items in the output channel" under the same lock when it injects a fault, so no item is
+		// ever in transit between the two
+		e.mu.Lock()
 		it, tag, got, closed := e.ad.tryRecv()
 		if closed {
-			e.mu.Lock()
 			e.markTerminatedLocked("output closed")
 			e.mu.Unlock()
 			return n
 		}
 		if !got {
+			e.mu.Unlock()
 			return n
 		}
-		e.mu.Lock()
 		e.deliveredLocked(it, tag, true)
 		e.mu.Unlock()
 		n++
